@@ -921,6 +921,7 @@ type callFrame struct {
 
 type callable struct {
 	value  reflect.Value   // reflect value.
+	noEnv  reflect.Value   // reflect value without the native.Env parameter.
 	fn     *Function       // function, if it is a Scriggo function.
 	native *NativeFunction // native function.
 	vars   []reflect.Value // non-local (global and closure) variables.
@@ -938,13 +939,16 @@ func (c *callable) Native() *NativeFunction {
 // Value returns a reflect.Value of a callable, so it can be called from a
 // native code and passed to a native code.
 func (c *callable) Value(env *env) reflect.Value {
-	if c.value.IsValid() {
-		return c.value
+	if c.noEnv.IsValid() {
+		return c.noEnv
 	}
-	if c.native != nil {
-		// It is a native function.
-		c.value = reflect.ValueOf(c.native.function)
-		return c.value
+	if c.value.IsValid() || c.native != nil {
+		// It is a native function or a method value of a native type.
+		if !c.value.IsValid() {
+			c.value = reflect.ValueOf(c.native.function)
+		}
+		c.noEnv = withoutEnvParameter(c.value, env)
+		return c.noEnv
 	}
 	// It is a Scriggo function.
 	fn := c.fn
@@ -998,7 +1002,43 @@ func (c *callable) Value(env *env) reflect.Value {
 		}
 		return results
 	})
+	c.noEnv = c.value
 	return c.value
+}
+
+// withoutEnvParameter returns the function f if it has no native.Env
+// parameter. Otherwise it returns a function, with the type of f without
+// that parameter, that calls f passing env: it is the type that f has in
+// the Scriggo code, where the native.Env argument is implicit.
+func withoutEnvParameter(f reflect.Value, env *env) reflect.Value {
+	typ := f.Type()
+	if typ.Kind() != reflect.Func {
+		return f
+	}
+	for e := 0; e < 2 && e < typ.NumIn(); e++ {
+		if typ.In(e) != envType {
+			continue
+		}
+		in := make([]reflect.Type, 0, typ.NumIn()-1)
+		for i := range typ.NumIn() {
+			if i != e {
+				in = append(in, typ.In(i))
+			}
+		}
+		out := make([]reflect.Type, typ.NumOut())
+		for i := range out {
+			out[i] = typ.Out(i)
+		}
+		envArg := reflect.ValueOf(env)
+		return reflect.MakeFunc(reflect.FuncOf(in, out, typ.IsVariadic()), func(args []reflect.Value) []reflect.Value {
+			args = append(args[:e:e], append([]reflect.Value{envArg}, args[e:]...)...)
+			if typ.IsVariadic() {
+				return f.CallSlice(args)
+			}
+			return f.Call(args)
+		})
+	}
+	return f
 }
 
 func packageName(pkg string) string {
